@@ -50,6 +50,7 @@ partial def parseNodes (cs : List Char) (acc : List Tree) : Option (List Tree ×
       | _ => none
     else none
   | 't' :: rest => parseNodes rest (Tree.node 0 [] :: acc)
+  | 'd' :: rest => parseNodes rest (Tree.node 0 [] :: acc)      -- a CDATA section (its own node in the Xerces DOM)
   | 'c' :: rest => parseNodes rest (Tree.node 0 [] :: acc)
   | 'p' :: rest => parseNodes rest (Tree.node 0 [] :: acc)
   | _ => none
@@ -75,7 +76,7 @@ def topElemFlags (cs : List Char) : List Bool :=
       if c = '(' then go rest (depth + 1) acc
       else if c = ')' then go rest (depth - 1) acc
       else if depth = 0 ∧ (c = 'e' ∨ c = 'E') then go rest depth (true :: acc)
-      else if depth = 0 ∧ (c = 't' ∨ c = 'c' ∨ c = 'p') then go rest depth (false :: acc)
+      else if depth = 0 ∧ (c = 't' ∨ c = 'c' ∨ c = 'p' ∨ c = 'd') then go rest depth (false :: acc)
       else go rest depth acc
   go cs 0 []
 
@@ -191,7 +192,16 @@ def setL (s : St) (i : Nat) (l : List (Option NodeRef) × Order) : St × String 
 def allSome (l : List (Option NodeRef)) : Option (List NodeRef) :=
   if l.all Option.isSome then some (l.filterMap id) else none
 
-def docReply (s : St) (d : Nat) (shape : String) : St × String :=
+/-- the source tree follows the XPath data model: adjacent character data (text, CDATA sections) is ONE text node -/
+def mergeCharData : List Char → Bool → List Char
+  | [], _ => []
+  | c :: rest, inRun =>
+    if c = 't' ∨ c = 'd' then
+      if inRun then mergeCharData rest true else 't' :: mergeCharData rest true
+    else c :: mergeCharData rest false
+
+def docReply (s : St) (d : Nat) (shape0 : String) : St × String :=
+  let shape := if s.rep = 'S' then String.ofList (mergeCharData shape0.toList false) else shape0
   if (findDoc s d).isSome then (s, "bad duplicate doc") else
   match parseNodes shape.toList [] with
   | some (tops, []) =>
@@ -275,7 +285,10 @@ def step (s : St) (ws : List String) : St × String :=
         | none => (s, "bad node")
       | none => (s, "bad node")
     | _, _, _ => (s, "bad axis")
-  | "build" :: _ => (s, "-")      -- trees built from events: checked by the oracle of the check, not modelled
+  | "build" :: _ => (s, "-")
+  | "xmldoc" :: _ => (s, "-")     -- documents given as XML text, node identity, whole-document node-sets: oracle of the check
+  | "identity" :: _ => (s, "-")
+  | "nodesets" :: _ => (s, "-")      -- trees built from events: checked by the oracle of the check, not modelled
   | "xp" :: _ => (s, "-")
   | "xpu" :: rest =>
     match splitSemi rest with
